@@ -95,6 +95,8 @@ class ConcApi(BaseApi):
     def real(self, name, positive=False, nonzero=False, lo=None, hi=None):
         def draw():
             if lo is not None and hi is not None:
+                if lo == 0 and hi >= 10**6:
+                    return 0.0 if self.rng.random() < 0.15 else 10 ** self.rng.uniform(-3, 3)
                 return self.rng.uniform(lo, hi)
             mag = 10 ** self.rng.uniform(-3, 3)
             if self.rng.random() < 0.15:
